@@ -330,7 +330,7 @@ func Core() []*Program {
 		}))
 	}
 	// guards in every position
-	for _, g := range []string{"platform", "requires", "enum", "precond", "prompt", "uptodate"} {
+	for _, g := range []string{"platform", "platreq", "requires", "enum", "precond", "prompt", "uptodate"} {
 		add(mk("guard-root-"+g, 0, []string{"a", "b"}, map[string]*Task{
 			"a": {Guard: g, Deps: []CallSite{dep("b")}, Cmds: []Cmd{sh(0)}},
 			"b": {Cmds: []Cmd{sh(0)}},
